@@ -519,9 +519,9 @@ func runC15(res *vh.Result) {
 		"periods are hours, so no real ticker fires during a case; ticks are injected as the event a ticker posts",
 		"the barrier is a sentinel registration whose query/report proves all earlier events were consumed",
 	}
-	ncomp := vh.Tiered(300, 25000)
+	ncomp := vh.Tiered(1500, 30000)
 	counts := []int{1, 55, 56, 57, 112, 113, 1000, 2, 111, 168, 169}
-	ndrv := vh.Tiered(len(counts)+20, len(counts)+1500)
+	ndrv := vh.Tiered(len(counts)+60, len(counts)+2000)
 	res.Cases(ncomp+ndrv, func(i int, rng *vh.Rng) {
 		if i < ncomp {
 			c15Component(res, i, rng)
